@@ -15,6 +15,7 @@ worker() {
   wt=/tmp/jv-wt-$i; cache=/var/tmp/jv-cache-w$i
   git -C /repo worktree remove --force $wt 2>/dev/null; rm -rf $wt $cache
   git -C /repo worktree add --detach $wt HEAD >/dev/null 2>&1 || { echo "worker $i: no worktree" >> $log; return; }
+  cp /repo/Cargo.lock $wt/ 2>/dev/null   # git-ignored in jawk, needed for offline builds
   mkdir -p $cache
   for d in target-nightly target-stable target-kani-0 target-calib; do [ -d $MAIN/$d ] && cp -a $MAIN/$d $cache/$d; done
   cp $MAIN/fmt-calib-*.json $cache/ 2>/dev/null
